@@ -526,3 +526,30 @@ def unwrap_dask(t):
             t = a
         else:
             return t
+
+
+def resolve(t, decide):
+    """t with every phi whose condition `decide` can settle (True / False; None = unknown) replaced by the chosen
+    branch; conditions are resolved first, `x is None` / `x is not None` on a resolved non-parameter term is settled
+    by what the term is"""
+    if not isinstance(t, tuple) or not t:
+        return t
+    if t[0] == 'arith':
+        return t
+    if t[0] == 'phi':
+        c = resolve(t[1], decide)
+        d = decide(c)
+        if d is None and c[0] == 'cmp' and c[1] in ('Is', 'IsNot') and ('const', None) in (c[2], c[3]):
+            other = c[3] if c[2] == ('const', None) else c[2]
+            if other == ('const', None):
+                d = c[1] == 'Is'
+            elif other[0] in ('call', 'data', 'index', 'tuple', 'cast'):
+                d = c[1] == 'IsNot'
+        if d is None and c[0] == 'const':
+            d = bool(c[1])
+        if d is True:
+            return resolve(t[2], decide)
+        if d is False:
+            return resolve(t[3], decide)
+        return ('phi', c, resolve(t[2], decide), resolve(t[3], decide))
+    return tuple(resolve(x, decide) if isinstance(x, tuple) else x for x in t)
